@@ -131,8 +131,11 @@ def c02_2(ctx: Ctx) -> RuleResult:
     sites = ctx.cg.callers(s)
     if len(sites) < 2:
         raise AnalysisError(f"expected the per-realization and the merged call of the solver, found {len(sites)}")
+    from ..util import contextual, enclosing_ifs_ctx
+
     for f, c in sites:
-        t = X.at(f, c)
+        # the call as its (single) caller chain sees it: a solve moved into a private helper is the same solve
+        t, _top = contextual(ctx, f, X.at(f, c))
         if len(t[2]) != 2:
             raise AnalysisError("solver call does not have (matrix, vector) arguments")
         M, R = t[2]
@@ -168,13 +171,10 @@ def c02_2(ctx: Ctx) -> RuleResult:
         # active realizations: |w| > 0 in the selector or controlling the call
         act = [x for x in subterms(norm(sel)) if x[0] == "cmp" and x[1] == "<" and x[2] == ("const", 0)]
         guard = False
-        cur = parent(c)
-        while cur is not None and cur is not f.node:
-            if isinstance(cur, ast.If):
-                gt = norm(X.value_at(f, cur.test))
-                if any(x[0] == "cmp" and x[1] == "<" and x[2] == ("const", 0) and contains(x[3], lambda y: y[0] == "param" and "weight" in y[2]) for x in ctx.X.closure(gt)):
-                    guard = True
-            cur = parent(cur)
+        for gf, cur in enclosing_ifs_ctx(ctx, f, c):
+            gt = norm(contextual(ctx, gf, X.value_at(gf, cur.test))[0])
+            if any(x[0] == "cmp" and x[1] == "<" and x[2] == ("const", 0) and contains(x[3], lambda y: y[0] == "param" and "weight" in y[2]) for x in ctx.X.closure(gt)):
+                guard = True
         in_sel = any(contains(x[3], lambda y: y[0] == "param" and "weight" in y[2]) for x in [y for y in ctx.X.closure(norm(sel)) if y[0] == "cmp" and y[1] == "<" and y[2] == ("const", 0)])
         ok = guard or in_sel
         res.add(f, c, "only realizations with non-zero weight contribute (|w| > 0 in the selector or guarding the solve)", ok,
@@ -279,12 +279,12 @@ def c02_4(ctx: Ctx) -> RuleResult:
         s = solver(ctx)
         for call_, cs, _k in ctx.cg.all_callees(f):
             for g in cs:
-                if g is not f and any(s in cs2 for _c2, cs2, _k2 in ctx.cg.all_callees(g)):
+                if g is not f and s in ctx.cg.reachable([g], include_nested_values=False):
                     ct = X.at(f, call_)
                     ok = wt in ct[2] or any(v == wt for _k3, v in ct[3])
                     res.add(f, call_, f"`{g.name}` receives the same normalised weights as the estimator", ok,
                             "" if ok else "the least-squares stage uses other weights than the estimator", construct=f"{f.name}: weights to {g.name}")
-    res.floor = 3
+    res.floor = 2
     return res
 
 
@@ -328,10 +328,18 @@ def c02_5(ctx: Ctx) -> RuleResult:
     X = ctx.X
     s = solver(ctx)
     n = 0
-    for f, c in ctx.cg.callers(s):
-        t = X.at(f, c)
-        M, R = t[2]
-        fm, fr = _weight_factors(ctx, f, M), _weight_factors(ctx, f, R)
+    from ..util import context_chain
+
+    for f0, c in ctx.cg.callers(s):
+        # the function in which a weight factor is applied to the rows: the solve site itself or, when the solve
+        # was moved into a private single-use helper, the caller that prepares its arguments
+        f, fm, fr = f0, set(), set()
+        for g_, t_ in context_chain(ctx, f0, X.at(f0, c)):
+            M, R = t_[2]
+            fm, fr = _weight_factors(ctx, g_, M), _weight_factors(ctx, g_, R)
+            if fm or fr:
+                f = g_
+                break
         if not fm and not fr:
             res.add(f, c, "rows are not scaled (nothing to balance)", True, construct=f"{f.name}: row scaling")
             continue
